@@ -432,6 +432,30 @@ def _mk_slice(axis, hi):
     return A("tuple", A("slice", _none(), _none(), _none()), sl)
 
 
+def _is_none_t(x):
+    return isinstance(x, Term) and x.op == "const" and x.args[0] is None
+
+
+def _term_full_slice(x):
+    return isinstance(x, Term) and x.op == "slice" and all(_is_none_t(q) for q in x.args)
+
+
+def _term_prefix_axis(idx):
+    """axis of a Term index of the form [:h] / [:, :h]"""
+    def pre(x):
+        return isinstance(x, Term) and x.op == "slice" and len(x.args) == 3 and _is_none_t(x.args[0]) and _is_none_t(x.args[2]) and not _is_none_t(x.args[1])
+
+    if pre(idx):
+        return 0
+    if isinstance(idx, Term) and idx.op == "tuple" and len(idx.args) == 2 and _term_full_slice(idx.args[0]) and pre(idx.args[1]):
+        return 1
+    return None
+
+
+def _nonneg_const(x):
+    return isinstance(x, Term) and x.op == "const" and isinstance(x.args[0], Fraction) and x.args[0] >= 0
+
+
 def _prefix_slice(fi):
     """(axis, hi) if the frozen index is a[:hi] or a[:, :hi]"""
     def is_prefix(x):
@@ -498,12 +522,40 @@ def _unmask(v, mask):
             r = None if any(p is None for p in parts) else Term(t.op, *parts)
         elif t.op == "sym":
             r = t
+        elif t.op in _ROW_REDUCTIONS and len(t.args) >= 2 and any(isinstance(x, tuple) and x and x[0] == "axis" and isinstance(x[1], Term) and x[1].op == "const" and isinstance(x[1].args[0], Fraction) and (x[1].args[0] >= 1 or x[1].args[0] == -1) for x in t.args[1:]):
+            # a reduction along a trailing axis commutes with a selection of rows
+            inner = rec(t.args[0])
+            r = None if inner is None else Term(t.op, inner, *t.args[1:])
         else:
             r = None
         memo[t] = r
         return r
 
     return rec(v)
+
+
+def _mk_where(c, x, y):
+    """where(c, x, y) with canonical polarity and without unreachable nested branches"""
+    while isinstance(c, Node) and c.op in ("invert", "not") and len(c.kids) == 1:
+        c, x, y = c.kids[0], y, x
+    if isinstance(x, Node) and x.op == "where3" and x.kids[0] is c:
+        x = x.kids[1]
+    if isinstance(y, Node) and y.op == "where3" and y.kids[0] is c:
+        y = y.kids[2]
+    if x is y or x == y:
+        return P_atom(x) if isinstance(x, Node) else P_const(x)
+    return P_atom(A("where3", c, x, y))
+
+
+_ROW_REDUCTIONS = {"amin", "amax", "sum", "mean", "any", "all", "argmin", "argmax", "norm", "prod", "count", "nanmin", "nanmax", "lse"}
+
+
+def _complement(x, y):
+    """frozen masks x, y with y == not x"""
+    for p, q in ((x, y), (y, x)):
+        if isinstance(q, Node) and q.op in ("invert", "not") and len(q.kids) == 1 and q.kids[0] is p:
+            return True
+    return False
 
 
 def _const_index(f):
@@ -636,6 +688,18 @@ class Normalizer:
                 full = all(isinstance(z, Term) and z.op == "slice" and all(isinstance(q, Term) and q.op == "const" and q.args[0] is None for q in z.args) for z in idx.args[1:])
                 if full:
                     idx = idx.args[0]
+            if isinstance(idx, Term) and idx.op == "nonzero1":
+                idx = idx.args[0]  # a[np.flatnonzero(m)] selects the same entries as a[m]
+            # a[:h][j] = a[j] and a[:, :h][:, j] = a[:, j] for a fixed element j >= 0 (wherever defined)
+            while isinstance(base, Term) and base.op == "getitem":
+                ax = _term_prefix_axis(base.args[1])
+                if ax is None:
+                    break
+                its = idx.args if isinstance(idx, Term) and idx.op == "tuple" else (idx,)
+                if len(its) > ax and _nonneg_const(its[ax]) and all(_term_full_slice(z) for z in its[:ax]):
+                    base = base.args[0]
+                    continue
+                break
             fi = self.freeze(idx)
             b = base
             while isinstance(b, Term) and b.op == "store":
@@ -663,8 +727,10 @@ class Normalizer:
                 # b[mask] = f(x[mask])  is the elementwise selection where(mask, f(x), b)
                 v2 = _unmask(val, idx)
                 if v2 is not None:
-                    return P_atom(A("where3", fi, wrap(self.nf(v2)), wrap(self.nf(base))))
+                    return _mk_where(fi, wrap(self.nf(v2)), wrap(self.nf(base)))
             return P_atom(A("store", wrap(self.nf(base)), fi, wrap(self.nf(val))))
+        if op == "where3" and len(a) == 3:
+            return _mk_where(self.freeze(a[0]), self.freeze(a[1]), self.freeze(a[2]))
         if op == "comp" and len(a) >= 3 and isinstance(a[2], Term):
             # [k * e(x) for x in xs] = k * [e(x) for x in xs] for a factor k that does not vary with x
             pe = self.nf(a[2])
@@ -678,6 +744,8 @@ class Normalizer:
                 ((s, chain), k), = pl
                 if len(chain) == 1 and (s or k != 1):
                     return frozenset([((s, (A("stack", self.freeze(a[0]), chain[0]),)), k)])
+        if op in ("unique",) and len(a) == 1 and isinstance(a[0], Term) and a[0].op in ("reshape", "ravel", "flatten") :
+            return self.nf(Term(op, a[0].args[0]))  # np.unique flattens its input
         if op == "unk":
             return P_atom(A("unk", a[0], a[1]))
         if op == "count" and len(a) == 1 and isinstance(a[0], Term) and a[0].op in ("gt", "lt", "ge", "le") and len(a[0].args) == 2:
